@@ -207,7 +207,7 @@ def wide_universe(rng):
     firsts = ["f", "F", "é", "É", "z", "Z", "9", "ñ", "Ñ"]
     for c in firsts:
         upper[c] = c.upper()
-    words = ["oo", "ar baz", "'s", "/doc", "-x"]
+    words = ["oo", "ar baz", "'s", "/doc", "-x", ":w", "R:Webster"]
     return {"pfxns": pfxns, "canon": canon, "upper": upper, "firsts": firsts, "words": words, "ns": chosen}
 
 
@@ -418,7 +418,8 @@ def run_v(o: Outcome, ntraces, length):
         start = max(i for i in range(b["i"]) if events[i]["op"] == "reset")
         o.violation(
             {"kind": "V", "universe": {k: u[k] for k in ("pfxns", "canon", "upper")}, "events": events[start : b["i"]]},
-            f"{ev['op']}({conc(ev['title'])!r}, ns={ev['ns']}) returned {ev['res']!r}; specification: {b['expected']!r}",
+            (f"{ev['op']}({conc(ev['title'])!r}, ns={ev['ns']}) returned {ev['res']!r}; specification: {b['expected']!r}" if "title" in ev else
+             f"{ev['op']}(namespaces={ev.get('nsl')}, redirects={ev.get('redirects')}, model={ev.get('model')!r}) returned {str(ev['res'])[:300]}; specification: {b['expected']!r}"),
             cls="V:" + ev["op"],
         )
     if events:
